@@ -160,7 +160,7 @@ def run(prop, tier):
     for v in agg["violations"]:
         sigkey = sha(v.get("signature", {}))
         seen_sig[sigkey] += 1
-        if seen_sig[sigkey] > 2 or len(vio_lines) >= 25:
+        if seen_sig[sigkey] > 2 or len(vio_lines) >= 40:
             continue
         rdir.mkdir(parents=True, exist_ok=True)
         h = sha([v.get("signature"), v.get("case")])
